@@ -1037,6 +1037,10 @@ func (s *runState) opRenumber() {
 		to = from // onto itself
 	case 2:
 		to = int32(4 + t.Choose(12)) // maybe free
+		if t.Chance(1, 6) {
+			// descriptor-table word boundaries (the table keeps a bitmask per 64 entries)
+			to = tape.Pick(t, []int32{62, 63, 64, 65, 127, 128, 129})
+		}
 	case 3:
 		to = int32(t.Choose(4)) // stdio / preopen
 	case 4:
